@@ -411,3 +411,22 @@ func blockJustified(b *ssa.BasicBlock, ok func(Fact) bool, depth int) bool {
 	}
 	return true
 }
+
+// closureOfArg unwraps conversions around a function literal passed as an argument.
+func closureOfArg(v ssa.Value) *ssa.Function {
+	for d := 0; d < 5; d++ {
+		switch x := v.(type) {
+		case *ssa.MakeClosure:
+			return x.Fn.(*ssa.Function)
+		case *ssa.Function:
+			return x
+		case *ssa.ChangeType:
+			v = x.X
+		case *ssa.MakeInterface:
+			v = x.X
+		default:
+			return nil
+		}
+	}
+	return nil
+}
